@@ -531,6 +531,7 @@ def load_corpus():
 
 def run(chk):
     chk.trusted_base = common.BASE_TRUST + [
+        "translate/units/_cmp.py + translate/c2gallina.py (clang JSON AST): the comparison part of the C comparators (loom.c by_pid/by_rank/by_phyid, proc.c by_tid, system.c cmp_loom_rank/cmp_loom_id) is translated to Gallina on every run, the statements that fetch the compared integers are pinned as normalised source text, not translated",
         "hand model coq/Emu/MetaDefs.v of system_init/load_cpus/load_appid/load_rank/create_thread/loom_sort/loom_init_end, "
         "validated on every run against ovniemu's exit status, signal, thread.row, cpu.row and the TID rows of thread.prv/cpu.prv",
         "uthash/utlist are modelled (insertion-ordered lists; HASH_SORT/DL_SORT as a stable sort), not verified",
@@ -543,7 +544,7 @@ def run(chk):
                        "C15_union has the hypothesis rank_names_proc (no rank claimed by two different processes); without it the statement "
                        "is false (C15_union_rank_ties_refuted) and the real emulator shows it: known finding rank-ties-order-dependent",
                        "'duplicate TIDs' is read as the same (loom, pid, tid) in two streams"]
-    chk.prove()
+    chk.translate_and_prove(["cmp_meta"])
     build = common.repo_build("hook")
     oracle = None
     try:
